@@ -30,6 +30,7 @@ def run(prog, chk):
         "every glyph is a candidate base of some mark feature: the abvm / not-abvm sets cover the glyph set on every path, mark/mkmk use the second and abvm/blwm the first (R06.10)",
         "markGlyphNames holds exactly the glyphs that got a mark class (same guards as the class insertion) (R06.11)",
         "aliased list padding ([[]] * n) is never mutated through an element (R06.12)",
+        "the above / below anchor filters of abvm / blwm are complementary by construction and each feature uses its own (R06.13)",
     ]
     chk.not_decided += ["the offsets a shaper computes", "lookup grouping / graph colouring result", "which script a glyph is routed to (abvm / blwm classification data)", "contextual anchors' generated rules"]
     chk.guard(r061, prog, chk)
@@ -43,6 +44,7 @@ def run(prog, chk):
     chk.guard(r0610, prog, chk)
     chk.guard(r0611, prog, chk)
     chk.guard(r0612, prog, chk)
+    chk.guard(r0613, prog, chk)
     from .rounding import check_no_truthiness_on_coordinates
     n = check_no_truthiness_on_coordinates(prog, chk, "R06.9", [MARK, "ufo2ft.featureWriters.baseFeatureWriter"])
     need(n >= 40, "truthiness scan found too few tests")
@@ -626,7 +628,47 @@ def r0612(prog, chk):
     chk.minimum("R06.12", 2)
 
 
+
+# ----------------------------------------------------------------------------- R06.13
+def r0613(prog, chk):
+    """Inside the abvm / blwm features every mark anchor of an Indic glyph goes to exactly one of the two: the two anchor
+    filters are complementary by construction (one is the negation of the other), abvm uses the one and blwm the other."""
+    ix = prog.ix
+    mw = ix.get_class(f"{MARK}.MarkFeatureWriter")
+    mk = mw.methods["_makeAbvmOrBlwmFeature"]
+    tag = mk.params()[1]
+    filt = {}
+    for st in A.stmts_of(mk.node):
+        if isinstance(st, ast.Assign) and isinstance(st.value, ast.Attribute) and T(st.value.value) == "self" and st.value.attr in mw.methods and isinstance(st.targets[0], ast.Name):
+            for o, l, r in facts(prog, mk, st):
+                if o == "eq" and l == tag and r in ("'abvm'", "'blwm'"):
+                    filt[r.strip("'")] = (st.value.attr, st.targets[0].id)
+    need(set(filt) == {"abvm", "blwm"}, f"cannot interpret {mk.short}: anchor filters per tag")
+    fa, fb = filt["abvm"][0], filt["blwm"][0]
+    var = filt["abvm"][1]
+    oku = filt["abvm"][1] == filt["blwm"][1] and all(any(T(a_) == var for a_ in list(c.args) + [k_.value for k_ in c.keywords])
+                                                     for c in A.body_nodes(mk.node) if isinstance(c, ast.Call) and A.callee_name(c) in ("_makeMarkLookup", "_makeMarkToLigaLookup"))
+    chk.ob("R06.13", f"{mk.short}|abvm and blwm lookups are all filtered by the tag's own anchor filter", oku and fa != fb, where(mk), detail=f"abvm: {fa}, blwm: {fb}",
+           message=f"{mk.short}: a lookup of the abvm / blwm feature is built without (or with the other feature's) anchor filter")
+
+    def negation_of(m_, other):
+        rets = A.returns_of(m_.node)
+        if len(rets) != 1:
+            return False
+        v = rets[0].value
+        return isinstance(v, ast.UnaryOp) and isinstance(v.op, ast.Not) and isinstance(v.operand, ast.Call) and T(v.operand.func) == f"self.{other}" \
+            and [T(a) for a in v.operand.args] == m_.params()[1:2]
+    ok = negation_of(mw.methods[fb], fa) or negation_of(mw.methods[fa], fb)
+    chk.ob("R06.13", f"{mw.name}.{fa} / {fb}|the two anchor filters are complementary (one is `not` the other)", ok, where(mw.methods[fb]), detail=f"{fb}(anchor) == not {fa}(anchor)",
+           message=f"{mw.name}: {fa} and {fb} are decided independently: an anchor can satisfy neither (its attachment is emitted in no feature) or both (emitted twice)")
+    chk.minimum("R06.13", 2)
+
+
 MUTANTS = [
+    M("below-mark filter decided on its own (seeded C06f)", "ufo2ft/featureWriters/markFeatureWriter.py", "MarkFeatureWriter._isBelowMark",
+      "not self._isAboveMark(anchor)", "anchor.name in self.blwmAnchorNames or anchor.name.startswith('bottom')", rule="R06.13"),
+    M("blwm uses the above-mark filter", "ufo2ft/featureWriters/markFeatureWriter.py", "MarkFeatureWriter._makeAbvmOrBlwmFeature",
+      "marksFilter = self._isBelowMark", "marksFilter = self._isAboveMark", rule="R06.13"),
     M("static anchors rounded to integers before quantisation (seeded C06e)", "ufo2ft/featureWriters/baseFeatureWriter.py", "BaseFeatureWriter._getAnchor",
       "x = anchor.x\ny = anchor.y", "x = otRound(anchor.x)\ny = otRound(anchor.y)", rule="R06.2"),
     M("ligature eligibility: or -> and (mutation scan k=270)", "ufo2ft/featureWriters/markFeatureWriter.py", "MarkFeatureWriter._makeMarkToLigaAttachments",
